@@ -1,10 +1,10 @@
 //! C07 harness: maximum / arg-maximum / threshold of striped score matrices.
 //!
 //! `maxi gen --seed S --n N [--tier t]` prints input lines
-//!     <id> k=f32|f16|f48|u8 R=<rows> mi=<max_index> t=<threshold> m=<row/row/...>
+//!     <id> k=f32|f16|f48|f64|u8|b16|b48|b64 R=<rows> mi=<max_index> t=<threshold> m=<row/row/...>
 //!     <id> k=e2e pssm=<row/row/...> seq=<ACTGN...>
 //! (f32 cells and thresholds as decimal u32 bit patterns, u8 as decimal, cells of a row
-//! separated by `,`, `m=-` for a matrix without rows, `m=@v p=r:c:v;...` a constant matrix with planted cells; `f16` / `f48` are f32 with 16 / 48 columns).
+//! separated by `,`, `m=-` for a matrix without rows, `m=@v p=r:c:v;...` a constant matrix with planted cells; `f16` / `f48` / `f64` are f32 and `b16` / `b48` / `b64` u8 with 16 / 48 / 64 columns).
 //! `maxi corpus` prints the boundary corpus (same format).
 //! `maxi run` appends ` => key=value ...` with, for every entry point,
 //!     <p>.max  N | <value>        <p>.am  N | <row>:<col> (or an offset)      <p>.th  - | r:c,r:c,...
@@ -20,7 +20,7 @@ use lightmotif::abc::Background;
 use lightmotif::abc::Dna;
 use lightmotif::dense::DenseMatrix;
 use lightmotif::dense::MatrixCoordinates;
-use lightmotif::num::{U16, U32, U48};
+use lightmotif::num::{U16, U32, U48, U64};
 use lightmotif::pli::dispatch::Dispatch;
 use lightmotif::pli::verif::force_backend;
 use lightmotif::pli::Maximum;
@@ -204,6 +204,46 @@ where
     out.push(format!("lin.u={}", same as u8));
     out.push(format!("lin.n={}", lin.len()));
     out.push(format!("lin.max={}", show_opt(no_panic(|| lin.max().map(f32::to_bits)))));
+    out.push(format!("lin.am={}", show_opt(no_panic(|| lin.argmax()))));
+    out.push(format!("lin.th={}", show_list(no_panic(|| lin.threshold(&t)))));
+    out.join(" ")
+}
+
+/// u8 matrices with another column count (16, 48, 64): Pipeline::generic() and Pipeline::sse2()
+/// (default implementations) + linear scores.
+fn run_u8_cols<C>(m: &[Vec<u32>], mi: usize, t: u32) -> String
+where
+    C: lightmotif::num::PositiveLength + lightmotif::num::MultipleOf<U16>,
+    Pipeline<Dna, lightmotif::pli::platform::Generic>: Maximum<u8, C> + Threshold<u8, C>,
+    Pipeline<Dna, lightmotif::pli::platform::Sse2>: Maximum<u8, C> + Threshold<u8, C>,
+{
+    let cols = C::USIZE;
+    let mut s = StripedScores::<u8, C>::empty();
+    s.resize(m.len(), mi);
+    for (r, row) in m.iter().enumerate() {
+        for (c, &v) in row.iter().enumerate() {
+            s.matrix_mut()[r][c] = v as u8;
+        }
+    }
+    let t = t as u8;
+    let mut out: Vec<String> = vec![];
+    macro_rules! pipeline {
+        ($name:expr, $pli:expr) => {{
+            let p = $pli;
+            out.push(format!("{}.max={}", $name, show_opt(no_panic(|| p.max(&s)))));
+            out.push(format!("{}.am={}", $name, show_mc(no_panic(|| p.argmax(&s)))));
+            out.push(format!("{}.th={}", $name, show_mcs(no_panic(|| p.threshold(&s, t)))));
+        }};
+    }
+    pipeline!("g", Pipeline::<Dna, _>::generic());
+    pipeline!("s", Pipeline::<Dna, _>::sse2().unwrap());
+    let n = mi.min(m.len() * cols);
+    let flat: Vec<u8> = (0..n).map(|i| m[i % m.len()][i / m.len()] as u8).collect();
+    let same = no_panic(|| s.unstripe()).map(|u| *u == flat).unwrap_or(false);
+    let lin = Scores::new(flat);
+    out.push(format!("lin.u={}", same as u8));
+    out.push(format!("lin.n={}", lin.len()));
+    out.push(format!("lin.max={}", show_opt(no_panic(|| lin.max()))));
     out.push(format!("lin.am={}", show_opt(no_panic(|| lin.argmax()))));
     out.push(format!("lin.th={}", show_list(no_panic(|| lin.threshold(&t)))));
     out.join(" ")
@@ -456,7 +496,7 @@ fn pick_threshold_f32(rng: &mut Rng, m: &[Vec<u32>], big: bool) -> u32 {
 
 fn gen_f32(rng: &mut Rng, id: usize, sid: usize, tier: &str, cols: usize) -> String {
     // (48 columns: at most 2000 rows, i.e. the same number of cells as 3000 rows of 32)
-    let rows = pick_rows(rng, tier, id).min(if cols == 48 { 2000 } else { usize::MAX });
+    let rows = pick_rows(rng, tier, id).min(96000 / cols);
     let family = if rng.chance(1, 12) { 7 } else { rng.below(7) };
     let mut m: Vec<Vec<u32>> = vec![];
     let cfam = rng.below(7);
@@ -506,7 +546,8 @@ fn gen_f32(rng: &mut Rng, id: usize, sid: usize, tier: &str, cols: usize) -> Str
         match cols {
             32 => "f32",
             16 => "f16",
-            _ => "f48",
+            48 => "f48",
+            _ => "f64",
         },
         rows,
         mi,
@@ -515,14 +556,14 @@ fn gen_f32(rng: &mut Rng, id: usize, sid: usize, tier: &str, cols: usize) -> Str
     )
 }
 
-fn gen_u8(rng: &mut Rng, id: usize, sid: usize, tier: &str) -> String {
-    let rows = pick_rows(rng, tier, id);
+fn gen_u8(rng: &mut Rng, id: usize, sid: usize, tier: &str, cols: usize) -> String {
+    let rows = pick_rows(rng, tier, id).min(96000 / cols);
     let family = rng.below(7);
     let constant = *rng.pick(&[0u32, 1, 127, 128, 254, 255, 37]);
     let mut m: Vec<Vec<u32>> = vec![];
     for _ in 0..rows {
         let mut row = vec![];
-        for _ in 0..32 {
+        for _ in 0..cols {
             row.push(match family {
                 0 => rng.below(256) as u32,
                 1 => rng.below(4) as u32,
@@ -542,14 +583,14 @@ fn gen_u8(rng: &mut Rng, id: usize, sid: usize, tier: &str) -> String {
             1 => (mx + 1).min(255),
             _ => 255,
         };
-        for (r, c) in plant_positions(rng, sid, rows, 32) {
+        for (r, c) in plant_positions(rng, sid, rows, cols) {
             m[r][c] = peak;
         }
     }
     let mi = match rng.below(20) {
         0 => 0,
-        1 => rows * 32 + 3,
-        _ => (rows * 32).saturating_sub(rng.below(33) as usize),
+        1 => rows * cols + 3,
+        _ => (rows * cols).saturating_sub(rng.below(33) as usize),
     };
     let flat: Vec<u32> = m.iter().flatten().cloned().collect();
     let mx = flat.iter().max().cloned().unwrap_or(0);
@@ -566,7 +607,13 @@ fn gen_u8(rng: &mut Rng, id: usize, sid: usize, tier: &str) -> String {
     if rows > 80 && flat.iter().filter(|&&v| v >= t).count() > 2048 && mx < 255 {
         t = mx + 1;
     }
-    format!("{} k=u8 R={} mi={} t={} m={}", id, rows, mi, t, show_matrix(&m))
+    let kind = match cols {
+        32 => "u8",
+        16 => "b16",
+        48 => "b48",
+        _ => "b64",
+    };
+    format!("{} k={} R={} mi={} t={} m={}", id, kind, rows, mi, t, show_matrix(&m))
 }
 
 fn gen_e2e(rng: &mut Rng, id: usize, tier: &str) -> String {
@@ -642,8 +689,9 @@ fn gen_case(rng: &mut Rng, id: usize, tier: &str) -> String {
     // `sid` numbers the cases of one kind consecutively (systematic placement of maxima)
     match id % 10 {
         0 | 1 | 2 | 3 => gen_f32(rng, id, id / 10 * 4 + id % 10, tier, 32),
-        4 | 5 | 6 => gen_u8(rng, id, id / 10 * 3 + id % 10 - 4, tier),
-        7 => gen_f32(rng, id, id / 10, tier, 16),
+        4 | 5 => gen_u8(rng, id, id / 10 * 2 + id % 10 - 4, tier, 32),
+        6 => gen_u8(rng, id, id / 10, tier, [16, 48, 64][(id / 10) % 3]),
+        7 => gen_f32(rng, id, id / 10, tier, [16, 64][(id / 10) % 2]),
         8 => gen_f32(rng, id, id / 10, tier, 48),
         _ => gen_e2e(rng, id, tier),
     }
@@ -685,6 +733,37 @@ fn corpus() -> Vec<String> {
         let mut m = vec![vec![fbits(-7.5); 48]; 3];
         m[2][col] = fbits(-0.25);
         push(format!("k=f48 R=3 mi=144 t={} m={}", fbits(-0.25), show_matrix(&m)), &mut out);
+    }
+    for col in 0..64 {
+        let mut m = vec![vec![fbits(-7.5); 64]; 2];
+        m[1][col] = fbits(-0.25);
+        push(format!("k=f64 R=2 mi=128 t={} m={}", fbits(-0.25), show_matrix(&m)), &mut out);
+    }
+    for &(kind, cols) in &[("b16", 16usize), ("b48", 48), ("b64", 64)] {
+        for col in (0..cols).step_by(3) {
+            let mut m = vec![vec![3u32; cols]; 3];
+            m[col % 3][col] = 200;
+            push(format!("k={} R=3 mi={} t=200 m={}", kind, 3 * cols, show_matrix(&m)), &mut out);
+        }
+    }
+    // f32 matrices far above 3000 rows (compact form): maxima in late rows, 2^16 + 1 rows
+    // (the row index no longer fits 16 bits), 70000 rows; 16 / 48 / 64 columns through the SSE2 blocks
+    for &(kind, cols, rows, r, c) in &[
+        ("f32", 32usize, 65537usize, 65536usize, 19usize),
+        ("f16", 16, 70000, 69999, 13),
+        ("f48", 48, 8000, 7999, 40),
+        ("f64", 64, 8000, 4321, 63),
+        ("b16", 16, 70000, 69000, 7),
+        ("b64", 64, 30000, 29999, 50),
+    ] {
+        if kind.starts_with('f') {
+            push(
+                format!("k={} R={} mi={} t={} m=@{} p={}:{}:{}", kind, rows, rows * cols, fbits(-1.0), fbits(-7.5), r, c, fbits(-1.0)),
+                &mut out,
+            );
+        } else {
+            push(format!("k={} R={} mi={} t=200 m=@3 p={}:{}:200", kind, rows, rows * cols, r, c), &mut out);
+        }
     }
     // all cells equal (every cell is a maximum), all -inf, all +inf, zeros of both signs
     for &v in &[fbits(-3.0), NINF, PINF, 0u32, 0x8000_0000] {
@@ -791,8 +870,9 @@ fn main() {
                     "e2e" => run_e2e(&parse_matrix(&f["pssm"]), if f["seq"] == "-" { "" } else { &f["seq"] }),
                     k => {
                         let cols = match k {
-                            "f16" => 16,
-                            "f48" => 48,
+                            "f16" | "b16" => 16,
+                            "f48" | "b48" => 48,
+                            "f64" | "b64" => 64,
                             _ => 32,
                         };
                         let m = parse_matrix_fields(&f, cols);
@@ -802,6 +882,10 @@ fn main() {
                             "f32" => run_f32_32(&m, mi, t),
                             "f16" => run_f32_cols::<U16>(&m, mi, t),
                             "f48" => run_f32_cols::<U48>(&m, mi, t),
+                            "f64" => run_f32_cols::<U64>(&m, mi, t),
+                            "b16" => run_u8_cols::<U16>(&m, mi, t),
+                            "b48" => run_u8_cols::<U48>(&m, mi, t),
+                            "b64" => run_u8_cols::<U64>(&m, mi, t),
                             "u8" => run_u8_32(&m, mi, t),
                             _ => panic!("unknown kind {}", k),
                         }
